@@ -2,6 +2,7 @@
 package c03
 
 import (
+	"runtime/debug"
 	"encoding/binary"
 	"errors"
 	"fmt"
@@ -26,9 +27,13 @@ import (
 
 func TestMain(m *testing.M) {
 	harness.Property("C03",
-		"the remote is a fixed byte script fed through a generated read schedule. Scripts: (1) conforming transcripts = the recorded peer->library stream of a clean exchange with the reference peer (sanity: must end nil/ErrConnLost); (2) layered mutations of such transcripts as structured elements — element drop/dup/swap, hostile lines (F>, ;PQ, FS, FC, FC EM, NUL lines, non-ASCII), numeric fields of proposals/answers/offsets set to -1, 0, 2^31-1, 2^31, 2^63, 10^18, frame header length/title/offset/block sizes/checksum edits, payload edits (LZHUF size negative / too small / huge with re-computed CRC, bit flips, truncation, random) with the frame and proposal re-computed around them, message edits (negative/huge/non-numeric Body: and File: sizes, dropped headers) re-compressed and re-framed, then byte level truncate/delete/insert/substitute; (3) arbitrary bytes. Master and slave role, 0..7 outbound messages, with and without handler. Non-trivial = the Session consumed bytes beyond the remote's handshake; distinct by hash(script, library config).",
-		"a hang is declared only after 60 s wall for a case that normally takes microseconds; allocation bound per case: 64 MiB + 4096 x script bytes of cumulative allocation (runtime.MemStats.TotalAlloc), worker address space limited to 4 GiB",
+		"the remote is a fixed byte script fed through a generated read schedule. Scripts: (1) conforming transcripts = the recorded peer->library stream of a clean exchange with the reference peer (sanity: must end nil/ErrConnLost); (2) layered mutations of such transcripts as structured elements — element drop/dup/swap, hostile lines (F>, ;PQ, FS, FC, FC EM, NUL lines, non-ASCII), numeric fields of proposals/answers/offsets set to -1, 0, 2^31-1, 2^31, 2^63, 10^18, frame header length/title/offset/block sizes/checksum edits, payload edits (LZHUF size negative / too small / huge with re-computed CRC, bit flips, truncation, random) with the frame and proposal re-computed around them, message edits (negative/huge/non-numeric Body: and File: sizes, dropped headers) re-compressed and re-framed, then byte level truncate/delete/insert/substitute; every 25th case additionally gets a flood of 150..600 KB of comment / empty / short lines at a line boundary; (3) arbitrary bytes. Master and slave role, 0..7 outbound messages, with and without handler. Non-trivial = the Session consumed bytes beyond the remote's handshake; distinct by hash(script, library config).",
+		"a hang is declared only after 60 s wall for a case that normally takes microseconds; allocation bound per case: 64 MiB + 4096 x script bytes of cumulative allocation (runtime.MemStats.TotalAlloc), worker address space limited to 4 GiB, goroutine stacks limited to 48 MiB (debug.SetMaxStack)",
 	)
+	// the proportionality clause covers the stack too: a correct session needs a few KiB of stack whatever the
+	// remote sends; a goroutine that grows beyond 48 MiB ends the process (fatal "stack overflow"), which the
+	// driver attributes to the case and reports after re-running it alone
+	debug.SetMaxStack(48 << 20)
 	harness.Main(m)
 }
 
@@ -38,6 +43,26 @@ type Case struct {
 	Sched  []int         `json:"sched"`
 	Desc   []string      `json:"desc"`
 	HsLen  int           `json:"handshake_len"` // bytes of the script that belong to the remote's handshake
+	// Flood: Unit repeated N times is inserted at byte offset At of Script when the case runs (kept compact: the
+	// remote sends a very long run of comment / empty / short lines, 150..600 KB)
+	Flood *Flood `json:"flood,omitempty"`
+}
+
+type Flood struct {
+	At   int    `json:"at"`
+	Unit string `json:"unit"`
+	N    int    `json:"n"`
+}
+
+func (c Case) script() []byte {
+	if c.Flood == nil || c.Flood.N <= 0 {
+		return c.Script
+	}
+	at := min(max(c.Flood.At, 0), len(c.Script))
+	out := make([]byte, 0, len(c.Script)+len(c.Flood.Unit)*c.Flood.N)
+	out = append(out, c.Script[:at]...)
+	out = append(out, strings.Repeat(c.Flood.Unit, c.Flood.N)...)
+	return append(out, c.Script[at:]...)
 }
 
 type obs struct {
@@ -51,7 +76,8 @@ func run(c Case) (sig, msg string, o obs) {
 	if err != nil {
 		return "harness-generator", err.Error(), o
 	}
-	conn := stream.NewScripted(c.Script, c.Sched)
+	script := c.script()
+	conn := stream.NewScripted(script, c.Sched)
 	var ms0, ms1 runtime.MemStats
 	runtime.ReadMemStats(&ms0)
 	var psig, pmsg string
@@ -60,7 +86,7 @@ func run(c Case) (sig, msg string, o obs) {
 		psig, pmsg = harness.Catch(func() { _, xerr = s.Exchange(conn) })
 	})
 	if hung {
-		harness.Record("hang:exchange-"+kind, c, fmt.Sprintf("Exchange did not return within 60 s after the %d byte script ended (%v)", len(c.Script), c.Desc))
+		harness.Record("hang:exchange-"+kind, c, fmt.Sprintf("Exchange did not return within 60 s after the %d byte script ended (%v)", len(script), c.Desc))
 		harness.ExitHung()
 	}
 	runtime.ReadMemStats(&ms1)
@@ -69,8 +95,8 @@ func run(c Case) (sig, msg string, o obs) {
 	if psig != "" {
 		return psig, fmt.Sprintf("%v: %s", c.Desc, pmsg), o
 	}
-	if limit := uint64(64<<20) + 4096*uint64(len(c.Script)); o.alloc > limit {
-		return "allocation-out-of-proportion", fmt.Sprintf("%v: Exchange allocated %d bytes for a %d byte script (bound %d)", c.Desc, o.alloc, len(c.Script), limit), o
+	if limit := uint64(64<<20) + 4096*uint64(len(script)); o.alloc > limit {
+		return "allocation-out-of-proportion", fmt.Sprintf("%v: Exchange allocated %d bytes for a %d byte script (bound %d)", c.Desc, o.alloc, len(script), limit), o
 	}
 	if conn.CloseCount() < 1 {
 		return "conn-not-closed", fmt.Sprintf("%v: Exchange returned (%v) without closing the connection", c.Desc, xerr), o
@@ -375,6 +401,22 @@ func genCase(t *rapid.T) Case {
 			}
 		}
 	}
+	// a flood of short lines at a line boundary of the script (every 25th case): memory, including the stack of
+	// the session's goroutine (limited to 48 MiB in this process, see TestMain), must stay in proportion
+	if len(c.Script) > 0 && rapid.IntRange(0, 24).Draw(t, "flood") == 0 {
+		var cuts []int
+		for i, b := range c.Script {
+			if b == '\r' {
+				cuts = append(cuts, i+1)
+			}
+		}
+		if len(cuts) > 0 {
+			unit := rapid.SampledFrom([]string{";\r", ";\r", "; x\r", ";PM: A B 1 C D\r", "\r", ";FW: N0CALL\r", "FS\r", " \r"}).Draw(t, "flood_unit")
+			bytesTotal := rapid.SampledFrom([]int{150 << 10, 300 << 10, 600 << 10}).Draw(t, "flood_bytes")
+			c.Flood = &Flood{At: cuts[rapid.IntRange(0, len(cuts)-1).Draw(t, "flood_at")], Unit: unit, N: bytesTotal / len(unit)}
+			c.Desc = append(c.Desc, fmt.Sprintf("flood:%q x %d", unit, c.Flood.N))
+		}
+	}
 	return c
 }
 
@@ -387,10 +429,10 @@ func account(c Case, o obs) {
 		harness.Label("mut:" + d)
 	}
 	if o.consumed > c.HsLen && c.HsLen > 0 {
-		harness.NonTrivial(harness.Hash(c.Script, fmt.Sprintf("%+v", c.Base.Lib), c.Sched))
+		harness.NonTrivial(harness.Hash(c.Script, fmt.Sprint(c.Flood), fmt.Sprintf("%+v", c.Base.Lib), c.Sched))
 		harness.Label("consumed-beyond-handshake")
 	}
-	if o.consumed == len(c.Script) {
+	if o.consumed == len(c.script()) {
 		harness.Label("consumed-whole-script")
 	}
 	switch {
